@@ -363,6 +363,10 @@ fn marathon(rep: &mut Report) {
     let mut direct = population(&addrs, &autos);
     let mut rng = crate::util::Rng::new(0xC17);
     for i in 0..70_000usize {
+        if i % 256 == 0 && crate::util::soft_deadline_passed() {
+            rep.count("loops_cut_short_at_the_soft_deadline");
+            break;
+        }
         let m = match i % 6 {
             0 => RefMsg::Query(addrs[(i / 6) % 2]),
             1 => RefMsg::Hello(if i % 4 == 1 { 0x0042 } else { addrs[(i / 6) % 2] }),
